@@ -752,8 +752,13 @@ pub fn drive_main(args: &[String]) -> i32 {
         "wall_s": wall,
         "violations": nviol,
     });
-    // C16: the enable-less build was run by run.sh just before; fold its result in
     let mut ev = ev;
+    // the seam audit run.sh made just before (tools/seam_audit.py): new clock/thread/random
+    // references outside the simulator's shims are a warning, not a verdict
+    if let Some(d) = std::fs::read_to_string(format!("{}/target/seam-audit.json", verif_dir())).ok().and_then(|s| serde_json::from_str::<serde_json::Value>(&s).ok()) {
+        ev["coverage"]["seam_audit"] = d;
+    }
+    // C16: the enable-less build was run by run.sh just before; fold its result in
     if prop == "C16" {
         let p = format!("{}/target-disabled/c16-disabled.json", verif_dir());
         match std::fs::read_to_string(&p).ok().and_then(|s| serde_json::from_str::<serde_json::Value>(&s).ok()) {
